@@ -56,6 +56,7 @@ class LokyInitMainProcess(LokyProcess):
         args=(),
         kwargs={},
         daemon=None,
+        env=None,
     ):
         super().__init__(
             group=group,
@@ -65,6 +66,7 @@ class LokyInitMainProcess(LokyProcess):
             kwargs=kwargs,
             daemon=daemon,
             init_main_module=True,
+            env=env,
         )
 
 
